@@ -476,6 +476,7 @@ def run_scenario(sc):
     import astral
     import astral.location
 
+    from mc.vloop import HorizonExceeded
     from mc.world import World
 
     mode, name, legacy, skew, op = sc
@@ -487,6 +488,8 @@ def run_scenario(sc):
     # there the clock creeps 10 us per callback as a real one would
     w = World({"other.py": "x = 1\n"}, legacy=legacy, start_utc=start_utc, tick=1e-5 if (nowbased or mode == "wait_until") else 0.0)
     obs = []
+    w.loop.max_steps = w.loop.steps + 400_000
+    livelock = None
     try:
         seen = 0
 
@@ -572,11 +575,17 @@ def run_scenario(sc):
                 seen += 1
         t_end = w.now()
         errors = [repr(e)[:200] for e in w.errors]
+    except HorizonExceeded:
+        # no quiescence: the same instant keeps firing (or the wait keeps being zero)
+        n_runs = len(obs)
+        livelock = [("livelock", "quiescence between instants", f"400000 callbacks without the clock moving; {n_runs} runs recorded so far")]
     finally:
         try:
             w.close()
         except Exception:  # noqa
             pass
+    if livelock:
+        return livelock, [[(str(o[3]), str(o[0])) for o in obs[:6]]]
     return judge(sc, specs, start, t_begin, t_defined, removed_at, second, t_end, obs, errors, loc, skew)
 
 
